@@ -158,7 +158,11 @@ void reb_integrator_part2(struct reb_simulation* r){
                 }
                 dt *= forward;
             }
+            // reb_integrator_bs_step starts at r->t, which already is the end of the N-body step.
+            const double t_end = r->t;
+            r->t = t;
             int success = reb_integrator_bs_step(r, dt);
+            r->t = t_end;
             if (success){
                 t += dt;
             }
